@@ -163,6 +163,37 @@ fn run(ctx: &mut Ctx) {
             }
         }
     }
+    ctx.bound("new_boxed_large", "contents of 255, 256, 257, 65535, 65536 and 65537 bytes split at every pair of cut points from {0, 1, n/2, n-1, n}, all five header kinds");
+    for n in [255usize, 256, 257, 65535, 65536, 65537] {
+        let content: Vec<u8> = (0..n).map(|i| marker(i, 67)).collect();
+        let cuts = [0usize, 1, n / 2, n - 1, n];
+        for &c1 in &cuts {
+            for &c2 in &cuts {
+                if c2 < c1 {
+                    continue;
+                }
+                let split = vec![c1, c2 - c1, n - c2];
+                for hk in 0..5 {
+                    let describe = || J::obj().set("part", "new_boxed_large").set("header_kind", hk).set("content_len", n).set("split", format!("{:?}", split));
+                    ctx.leaf(describe, |ctx| {
+                        ctx.state_direct();
+                        ctx.nontrivial();
+                        let none = |_: &[u8]| None;
+                        match hk {
+                            0 => boxed_case::<DynSizedStructure<TagHeader>>(ctx, "TagHeader", 8, 4, || TagHeader::new(TagType::Custom(0x1337), 0), &content, &split, &none),
+                            1 => boxed_case::<DummyDstTag>(ctx, "DummyTestHeader", 8, 4, || DummyTestHeader::new(42, 0), &content, &split, &none),
+                            2 => boxed_case::<DynSizedStructure<HeaderTagHeader>>(ctx, "HeaderTagHeader", 8, 4, || HeaderTagHeader::new(HeaderTagType::Address, HeaderTagFlag::Optional, 0), &content, &split, &none),
+                            3 => boxed_case::<DynSizedStructure<BootInformationHeader>>(ctx, "BootInformationHeader", 8, 0, || unsafe { std::mem::transmute::<[u32; 2], BootInformationHeader>([0, 0]) }, &content, &split, &none),
+                            _ => boxed_case::<DynSizedStructure<Multiboot2BasicHeader>>(ctx, "Multiboot2BasicHeader", 16, 8, || unsafe { std::mem::transmute::<[u32; 4], Multiboot2BasicHeader>([0xE852_50D6, 4, 0, 0]) }, &content, &split, &|b: &[u8]| {
+                                let s = rd32(b, 0).wrapping_add(rd32(b, 4)).wrapping_add(rd32(b, 8)).wrapping_add(rd32(b, 12));
+                                if s != 0 { Some("checksum does not match the patched length".to_string()) } else { None }
+                            }),
+                        }
+                    });
+                }
+            }
+        }
+    }
     ctx.bound("clone_dyn", "clone_dyn on every DST kind of both crates and DummyDstTag for content lengths 0..=24 (every padding residue)");
     for n in 0..=24usize {
         let blob: Vec<u8> = (0..n).map(|i| marker(i, 63)).collect();
